@@ -1121,6 +1121,7 @@ type concResult struct {
 	DelayUs     int    `json:"delay_us"`
 	TrafficHang bool   `json:"traffic_hang"`
 	CloseHang   bool   `json:"close_hang"`
+	SetupHang   string `json:"setup_hang,omitempty"` // a Bind call of the preparation never returned
 	LateWrites  int    `json:"late_writes"`
 	Panic       string `json:"panic,omitempty"`
 }
@@ -1139,10 +1140,22 @@ func runConcurrent(k *kind, delayUs int) *concResult {
 		res.Panic = fmt.Sprint(e)
 		pmu.Unlock()
 	}
-	r.do(op{K: "bindw"})
-	r.do(op{K: "bindr"})
-	r.do(op{K: "bind", X: 1})
-	r.do(op{K: "bind", X: 2})
+	// under the watchdog: a lock left held by one Bind parks the next one for ever (and a harness in which every
+	// goroutine is asleep is killed by the runtime instead of reporting)
+	for _, o := range []op{{K: "bindw"}, {K: "bindr"}, {K: "bind", X: 1}, {K: "bind", X: 2}} {
+		if ok, _ := within(watchdog, func() {
+			defer func() {
+				if e := recover(); e != nil {
+					note(e)
+				}
+			}()
+			r.do(o)
+		}); !ok {
+			res.SetupHang = fmt.Sprintf("%s %d", o.K, o.X)
+
+			return res
+		}
+	}
 	var stop atomic.Bool
 	var tw sync.WaitGroup
 	for x := uint32(1); x <= 2; x++ {
@@ -1810,6 +1823,9 @@ func main() {
 					cmu.Lock()
 					defer cmu.Unlock()
 					switch {
+					case c.SetupHang != "":
+						fails = append(fails, cq.ImplFailure{Kind: c.Name + "-bind-hang",
+							Detail: "BindRTCPWriter, BindRTCPReader, Bind 1, Bind 2 on a fresh interceptor: " + c.SetupHang + " never returned", Case: c})
 					case c.Panic != "":
 						fails = append(fails, cq.ImplFailure{Kind: c.Name + "-concurrent-close-panic", Detail: c.Panic, Case: c})
 					case c.TrafficHang:
